@@ -7,6 +7,7 @@
   /repo/src/git/repository.rs). Reference renderer of git's output: Lemmas/DiffParse.lean.
 -/
 import GitAiModel.Lemmas.DiffParse
+import GitAiModel.Lemmas.Sys
 import GitAiModel.Base.Chars
 namespace GitAi.DiffParse
 open GitAi
@@ -286,6 +287,150 @@ example : Inert unescapeAscii (chars% "diff --git a/f b/f") ∧ Inert unescapeAs
 
 end GitAi.DiffParse
 
+/-! ## History level: a commit's note is exactly the AI-written lines among the added lines -/
+
+namespace GitAi.Sys
+
+/-- what the property demands of a commit of the whole working tree: line `i` (with id `y`) is
+    listed under session `s` iff the commit adds it (its id is not in the old HEAD) and the last
+    substantive change to it was reported by `s` -/
+def expectedNote (head work : List Nat) (g : Nat → Author) : Note :=
+  (enum1 work).filterMap (fun (i, y) => if head.contains y then none else (g y).map (fun s => (i, s)))
+
+theorem mem_enum1 {α} (l : List α) (i : Nat) (y : α) (h : (i, y) ∈ enum1 l) : y ∈ l := by
+  unfold enum1 at h
+  exact (List.of_mem_zip h).2
+
+/-- **C01 at history level.** Start from a clean state (working tree = HEAD, empty working log, no
+    pending attribution). After ANY sequence of human edits, agent edits by any sessions
+    (reported with the documented protocol: pre-edit checkpoint, edit, agent checkpoint) and
+    extra human checkpoints — each edit keeping some lines and introducing fresh ones — followed by
+    `git add -A; git commit`, the note written for the commit is exactly `expectedNote`: a line
+    the commit adds is listed under session `s` iff its ghost author is `s`; lines the commit did
+    not add and lines last changed by a person are never listed. -/
+theorem commit_exact (h0 : List Nat) (g0 : Nat → Author) (ops : List Op)
+    (hnd : h0.Nodup)
+    (hv : ValidOps ⟨{ head := h0, index := h0, work := h0 }, g0, h0⟩ ops) :
+    let sp := specRun ⟨{ head := h0, index := h0, work := h0 }, g0, h0⟩ ops
+    (run sp.st [.stageAll, .commit]).notes.head? = some (expectedNote h0 sp.st.work sp.g) ∧
+    (run sp.st [.stageAll, .commit]).head = sp.st.work := by
+  intro sp
+  have hinv0 : Inv ⟨{ head := h0, index := h0, work := h0 }, g0, h0⟩ :=
+    ⟨rfl, hnd, fun y hy => hy, fun y hy => hy, by intro e he; simp at he,
+     by intro y hy hn; exact absurd hy hn⟩
+  have hinv : Inv sp := specRun_inv _ ops hinv0 hv
+  -- the head never changes during the edit phase
+  have hhead : sp.st.head = h0 := by
+    have : ∀ (sp0 : Spec) (ops : List Op), ValidOps sp0 ops → (specRun sp0 ops).st.head = sp0.st.head := by
+      intro sp0 ops
+      induction ops generalizing sp0 with
+      | nil => intro _; rfl
+      | cons op ops ih =>
+        intro hv
+        have := ih (specStep sp0 op) hv.2
+        simp only [specRun, List.foldl_cons] at this ⊢
+        rw [this]
+        cases op with
+        | humanEdit ys => rfl
+        | aiEdit s ys =>
+          simp only [specStep, step]
+          rw [(checkpoint_fields _ _).2.1]
+          simp [(checkpoint_fields _ _).2.1]
+        | humanCheckpoint => simp only [specStep, step]; exact (checkpoint_fields _ _).2.1
+        | stageAll => exact absurd hv.1 (by simp [ValidOp])
+        | stage ys => exact absurd hv.1 (by simp [ValidOp])
+        | commit => exact absurd hv.1 (by simp [ValidOp])
+    exact this _ ops hv
+  -- the pre-commit human checkpoint
+  let spS : Spec := ⟨{ sp.st with index := sp.st.work }, sp.g, sp.seen⟩
+  have hinvS : Inv spS := ⟨hinv.noInitial, hinv.nodup, hinv.workSeen, hinv.headSeen, hinv.snapSeen, hinv.latest⟩
+  have hinvC : Inv ⟨checkpoint spS.st none, spS.g, spS.seen⟩ := humanCheckpoint_inv spS hinvS
+  obtain ⟨hwC, hhC, hiC, hxC, _⟩ := checkpoint_fields spS.st none
+  have hprevC : (previous (checkpoint spS.st none)).snap = sp.st.work :=
+    previous_after_checkpoint spS.st none hinv.noInitial
+  obtain ⟨paC, _, _⟩ := previous_spec _ hinvC
+  have hiS : spS.st.initial = [] := hinv.noInitial
+  have hiC' : (checkpoint spS.st none).initial = [] := by rw [hiC]; exact hiS
+  -- effective attribution of every working-tree line is its target
+  have heff : effective (checkpoint spS.st none) = sp.st.work.map (target sp) := by
+    unfold effective
+    have hprev' := hprevC
+    have paC' := paC
+    unfold previous at hprev' paC'
+    cases he : (checkpoint spS.st none).entries.getLast? with
+    | some e =>
+      rw [he] at hprev' paC'
+      simp only at hprev' paC' ⊢
+      unfold checkpointAttr
+      rw [hwC]
+      apply List.map_congr_left
+      intro y hy
+      rw [paC', lookup_map, hprev']
+      have hy' : y ∈ sp.st.work := hy
+      simp only [hy', if_true, Option.getD_some]
+      simp [target, hhC, spS]
+    | none =>
+      rw [he] at hprev'
+      simp only [hiC', List.isEmpty_nil, if_true] at hprev' ⊢
+      rw [hwC]
+      -- no entry: the working tree equals HEAD, every line is a HEAD line
+      have hwh : sp.st.head = sp.st.work := by
+        have : (checkpoint spS.st none).head = sp.st.work := hprev'
+        rw [hhC] at this
+        exact this
+      show (List.range sp.st.work.length).map (fun i => initialAuthor [] (i + 1)) = _
+      have : ∀ (l : List Nat), (List.range l.length).map (fun i => initialAuthor [] (i + 1))
+          = l.map (fun _ => (none : Author)) := by
+        intro l
+        apply List.ext_getElem <;> simp [initialAuthor]
+      rw [this]
+      apply List.map_congr_left
+      intro y hy
+      have : y ∈ sp.st.head := hwh ▸ hy
+      simp [target, this]
+  have hauthor : ∀ y ∈ sp.st.work,
+      (lookup (checkpoint spS.st none).work (effective (checkpoint spS.st none)) y).getD none = target sp y := by
+    intro y hy
+    rw [heff, hwC]
+    show (lookup sp.st.work (sp.st.work.map (target sp)) y).getD none = _
+    rw [lookup_map]
+    simp [hy]
+  constructor
+  · show ((commitStep spS.st).notes).head? = _
+    unfold commitStep
+    simp only [List.head?_cons]
+    congr 1
+    unfold expectedNote
+    rw [hxC]
+    show List.filterMap _ (enum1 sp.st.work) = _
+    apply filterMap_congr_mem
+    intro ⟨i, y⟩ hm
+    have hy : y ∈ sp.st.work := mem_enum1 _ i y hm
+    simp only [hauthor y hy, hhC]
+    show (if sp.st.head.contains y then none else _) = _
+    rw [hhead]
+    by_cases hm0 : y ∈ h0
+    · simp [hm0]
+    · have hnm' : y ∉ sp.st.head := hhead ▸ hm0
+      simp [hm0, target, hnm']
+  · show (commitStep spS.st).head = _
+    unfold commitStep
+    simp only
+    rw [hxC]
+
+/-- non-vacuity: base `[1,2,3]`; session 7 inserts line 10; a person inserts line 11; session 8
+    replaces line 2 by 12; everything is committed: the note lists lines 2 and 3 (ids 12 and 10). -/
+example : ValidOps ⟨{ head := [1, 2, 3], index := [1, 2, 3], work := [1, 2, 3] }, fun _ => none, [1, 2, 3]⟩
+    [.aiEdit 7 [1, 2, 10, 3], .humanEdit [1, 2, 10, 11, 3], .aiEdit 8 [1, 12, 10, 11, 3]] := by
+  simp [ValidOps, ValidOp, ValidEdit, specStep, step, checkpoint, previous, credit]
+
+example : (run { head := [1, 2, 3], index := [1, 2, 3], work := [1, 2, 3] }
+    [.aiEdit 7 [1, 2, 10, 3], .humanEdit [1, 2, 10, 11, 3], .aiEdit 8 [1, 12, 10, 11, 3],
+     .stageAll, .commit]).notes.head? = some [(2, 8), (3, 7)] := by decide
+
+end GitAi.Sys
+
 #print axioms GitAi.DiffParse.parseHunkRanges_headerLine
 #print axioms GitAi.DiffParse.parse_render_exact
 #print axioms GitAi.DiffParse.normPath_plain
+#print axioms GitAi.Sys.commit_exact
